@@ -180,11 +180,15 @@ def check_fields(rng):
     return out
 
 
-def check_grid(rng):
+def check_grid(rng, given=None):
     out = []
-    lo = rng.uniform(-5, 0, size=3)
-    hi = lo + rng.uniform(0, 6, size=3)
-    pad, sp = float(rng.uniform(0, 2)), float(rng.uniform(0.3, 2.5))
+    if given is not None:
+        lo, hi, pad, sp = given
+        lo, hi = np.array(lo, dtype=float), np.array(hi, dtype=float)
+    else:
+        lo = rng.uniform(-5, 0, size=3)
+        hi = lo + rng.uniform(0, 6, size=3)
+        pad, sp = float(rng.uniform(0, 2)), float(rng.uniform(0.3, 2.5))
     g = G.rectangular_grid(lo, hi, padding=pad, spacing=sp, dtype="float64")
     l, r = lo - pad, hi + pad
     ns = [int(np.floor((r[k] - l[k]) / sp)) + 1 for k in range(3)]
@@ -249,7 +253,13 @@ for md in (float(w.get("max_dist", 3.0)), 0.7, 1.3, 3.5):
     if bad:
         break
 if op == "rectangular_grid":
-    for _ in range(200):
+    try:
+        given = ([float(x) for x in w["lo"]], [float(x) for x in w["hi"]], float(w["padding"]), float(w["spacing"]))
+        if given[3] > 0 and given[2] >= 0 and all(h >= l for l, h in zip(given[0], given[1])):
+            bad += [v["what"] + f" (lo={given[0]}, hi={given[1]}, padding={given[2]}, spacing={given[3]})" for v in check_grid(rng, given)]
+    except (KeyError, TypeError, ValueError):
+        pass
+    for _ in range(200 if not bad else 0):
         bad += [v["what"] for v in check_grid(rng)]
         if bad:
             break
